@@ -790,13 +790,21 @@ func cmdCheck(args []string) int {
 
 		// violations: dedupe by label, confirm natively
 		seenLabel := map[string]int{}
+		confirmedLabel := map[string]bool{}
+		unconfirmed := map[string][]string{}
 		for _, v := range res.Violations {
 			key := v.Kind + "/" + v.Label
 			if v.Kind != "assert" {
 				key += "/" + firstLine(v.Msg)
 			}
 			seenLabel[key]++
-			if seenLabel[key] > 2 {
+			if v.MapOrder {
+				// schedule / map-order dependent counterexamples: the native run draws the
+				// schedule at random, so try several candidates of a label until one reproduces
+				if confirmedLabel[key] || seenLabel[key] > 8 {
+					continue
+				}
+			} else if seenLabel[key] > 2 {
 				continue
 			}
 			rf := &replayFile{Property: prop, Harness: hs.Func, Pkg: hs.Pkg, Thorough: tier == "thorough", Label: v.Label, Kind: v.Kind, Msg: v.Msg, Inputs: v.Inputs}
@@ -812,9 +820,15 @@ func cmdCheck(args []string) int {
 			}
 			ok, why := confirm(spec, specDir, rf, path)
 			if !ok {
-				engineErrs = append(engineErrs, fmt.Sprintf("%s: model for %s/%s does not reproduce natively: %s (replay %s)", hs.Func, v.Kind, v.Label, why, path))
+				msg := fmt.Sprintf("%s: model for %s/%s does not reproduce natively: %s (replay %s)", hs.Func, v.Kind, v.Label, why, path)
+				if v.MapOrder {
+					unconfirmed[key] = append(unconfirmed[key], msg)
+				} else {
+					engineErrs = append(engineErrs, msg)
+				}
 				continue
 			}
+			confirmedLabel[key] = true
 			isKnown := false
 			for _, k := range kn {
 				if k.prop == prop && k.harness == hs.Func && k.label == v.Label {
@@ -831,6 +845,12 @@ func cmdCheck(args []string) int {
 				fmt.Printf("VIOLATION property=%s replay=%s\n", prop, path)
 				fmt.Printf("  harness=%s label=%s kind=%s: %s; %s\n", hs.Func, v.Label, v.Kind, firstLine(v.Msg), why)
 				exit = 1
+			}
+		}
+
+		for key, msgs := range unconfirmed {
+			if !confirmedLabel[key] {
+				engineErrs = append(engineErrs, msgs[0]+fmt.Sprintf(" [%d candidates of this label tried, none reproduced]", len(msgs)))
 			}
 		}
 
